@@ -82,7 +82,10 @@ FIXED = [
     {'xt': 'ab' * 20, 'dn': ''},                                              # D13c
     {'xt': 'ab' * 20, 'kt': ['a', '', 'b']},                                  # D13c
     {'xt': 'ab' * 20, 'kt': ['']},
-    {'xt': 'ab' * 20, 'xs': ' http://a/lead'},                                # D13e
+    {'xt': 'ab' * 20, 'xs': ' http://a/lead'},                                # D13e (repaired: URLError; regression)
+    {'xt': 'ab' * 20, 'tr': ['http://good/1', ' http://a/lead']},             # D14g (repaired; regression)
+    {'xt': 'ab' * 20, 'ws': ['http://a/b c', ' http://a/lead']},
+    {'xt': 'ab' * 20, 'xs': 'http://a/b c d', 'tr': 'http://a/ b', 'ws': ['http://w/x y', 'http://w/x+y']},
     {'xt': 'ab' * 20, 'dn': 'a&b=c+d%e#f?g;h ü\t\r\x00\x7f\U0001F600 x'},
     {'xt': 'AB' * 20, 'dn': '%41+%2B %', 'xl': 10 ** 30, 'tr': ['http://a/b c', 'http://a/b+c', 'http://a/b'], 'kt': ['a+b', 'c%20d', '&', '=']},
     {'xt': 'urn:btih:' + 'VOV2XK5L' * 4, 'ws': ['http://w/1', 'http://w/1', 'http://w/2']},
@@ -222,14 +225,6 @@ def m_blank_dropped(case, observed, finding):
     return g == p
 
 
-def m_url_space_lead(case, observed, finding):
-    """D13e: xs was accepted although its stored form (' ' -> '+') is not a valid URL; parsing the rendered link
-    raises URLError"""
-    f = case.get('fields') or {}
-    return bool(case.get('invalid_stored_urls') and observed == {'parse_exc': 'url'} and f.get('as_') is None
-                and not f.get('x'))
-
-
 def m_name_newline(case, observed, finding):
     """D13d: torrent name contains a newline; only the name differs, by '\\n' -> ' '"""
     t = case.get('torrent') or {}
@@ -239,7 +234,7 @@ def m_name_newline(case, observed, finding):
 
 
 MATCHERS = {'as_underscore': m_as_underscore, 'x_dot': m_x_dot, 'blank_dropped': m_blank_dropped,
-            'url_space_lead': m_url_space_lead, 'name_newline': m_name_newline}
+            'name_newline': m_name_newline}
 
 
 # ------------------------------------------------------------------ quote_plus / unquote_plus
